@@ -19,6 +19,15 @@ def qShow (st : St) (up : Nat) : String :=
     if s.q.isEmpty then "-" else
     String.intercalate "," ((s.q.mergeSort (fun a b => a.1 ≤ b.1)).map fun e => s!"{e.1}/{e.2.length}")
 
+/-- the FARs the data plane holds for the session, as the harness prints them -/
+def kShow (st : St) (up : Nat) : String :=
+  match alGet st.sess up with
+  | none => "-"
+  | some s =>
+    if s.fars.isEmpty then "-" else
+    String.intercalate "," ((s.fars.mergeSort (fun a b => a.1 ≤ b.1)).map fun e =>
+      s!"{e.1}:{e.2.action}:{match e.2.teid with | some t => toString t | none => "-"}")
+
 def listShow (l : List String) : String := if l.isEmpty then "-" else String.intercalate "," l
 
 def aaWordOf (b : Bytes) : Nat :=
@@ -101,8 +110,13 @@ def eval (st : St) (fn : String) (args : List String) (impl : String) : Option (
     let aa ← if aa == "-" then some none else (parseHexBytes aa).map fun b => some (aaWordOf b)
     let te ← optNat te
     let (st', ok, out) := updateFar st up far aa te
-    pure (st', { model := s!"{causeShow ok} gtpu={listShow (out.map Bytes.toHex)} q={qShow st' up}",
-                 propFails := checkGtpu s!"Update FAR {far} of session {natHex up}" impl out })
+    let kWant := kShow st' up
+    let kFail := match field impl "k" with
+      | some k => if k == kWant then [] else
+          [s!"C02 Update FAR {far} of session {natHex up}: the data plane now holds FARs [{k}], the IE's content under its own (SEID, FAR id) calls for [{kWant}] (id:apply-action:TEID) — the update reached another rule, or not the addressed one"]
+      | none => []
+    pure (st', { model := s!"{causeShow ok} gtpu={listShow (out.map Bytes.toHex)} q={qShow st' up} k={kWant}",
+                 propFails := checkGtpu s!"Update FAR {far} of session {natHex up}" impl out ++ kFail })
   | "buf.rmpdr", [up, pdr] =>
     let up ← parseHexNat up
     let (st', ok) := removePdr st up (← pdr.toNat?)
